@@ -429,6 +429,16 @@ def check_case(case, props):
             if variant != 'feasible':
                 stats['failure_checks'] += 1
                 if st['sol'] == 'opt' or readable or opt:
+                    # arbiter: if the engine itself, called directly on the snapshot through the independent translation,
+                    # also claims an optimum, the interface passed on what its engine said (seen: SCIP under OR-Tools returns
+                    # OPTIMAL with a value of 1e6 on an unbounded MILP whose ray is a free continuous column) - inconclusive
+                    try:
+                        dx = direct.DIRECT[eng](snap) if not call.get('soc') else None
+                    except Exception:
+                        dx = None
+                    if dx is not None:
+                        inconc('engine_itself_claims_optimum_on_%s:%s' % (variant, eng))
+                        continue
                     viol('failure-claims-solution', '%s on a %s instance reports a solution: objective %r, readable %s, '
                          'optimal()=%s, status %s' % (sv, variant, st.get('obj'), readable, opt, st.get('status')),
                          ['genuine_' + variant, eng])
